@@ -3,6 +3,7 @@ package main
 // SMT term helpers, Go type -> SMT sort mapping, prelude.
 
 import (
+	"regexp"
 	"fmt"
 	"go/types"
 	"math/big"
@@ -168,8 +169,22 @@ func sanitize(s string) string {
 }
 
 func typeKey(t types.Type) string {
-	return types.TypeString(t, func(p *types.Package) string { return p.Name() })
+	s := types.TypeString(t, func(p *types.Package) string { return p.Name() })
+	// predeclared aliases print under their alias name: canonicalise
+	return aliasRe.ReplaceAllStringFunc(s, func(m string) string {
+		switch m {
+		case "byte":
+			return "uint8"
+		case "rune":
+			return "int32"
+		case "any":
+			return "interface{}"
+		}
+		return m
+	})
 }
+
+var aliasRe = regexp.MustCompile(`\b(byte|rune|any)\b`)
 
 func (so *Sorts) typeID(t types.Type) int {
 	k := typeKey(t)
@@ -368,6 +383,9 @@ const preludeSMT = `
 (declare-datatypes ((Slice 0)) (((mk_slice (s_arr Int) (s_off Int) (s_len Int) (s_cap Int)))))
 (declare-datatypes ((Iface 0)) (((mk_iface (i_typ Int) (i_val Int)))))
 (define-fun nilslice () Slice (mk_slice 0 0 0 0))
+; element position of index i of slice s inside its backing array (a symbol, so that it can serve as a trigger)
+(declare-fun sidx (Slice Int) Int)
+(assert (forall ((s Slice) (i Int)) (! (= (sidx s i) (+ (s_off s) i)) :pattern ((sidx s i)))))
 (define-fun nilif () Iface (mk_iface 0 0))
 (define-fun slice_ok ((s Slice)) Bool (and (<= 0 (s_arr s)) (<= 0 (s_off s)) (<= 0 (s_len s)) (<= (s_len s) (s_cap s)) (<= (s_cap s) 4611686018427387904) (<= (s_off s) 4611686018427387904) (=> (= (s_arr s) 0) (= (s_cap s) 0))))
 (assert (= (slen sempty) 0))
